@@ -36,9 +36,9 @@ ASSUMPTIONS = [
     "corrections are only applied to payloads in their documented domain (colour / illumination: trichromatic data; drift, curvature, translation, perspective: 2-D)",
 ]
 FLOORS = {
-    "quick": {"contract:call_observed": 700, "input_untouched_without_overwrite": 300, "same_object_with_overwrite": 300, "construction_equals_overwrite": 1000, "pixels_equal_correct_array": 650, "metadata_is_input_plus_updates": 550,
+    "quick": {"input_untouched_while_result_is_modified": 250, "contract:call_observed": 700, "input_untouched_without_overwrite": 300, "same_object_with_overwrite": 300, "construction_equals_overwrite": 1000, "pixels_equal_correct_array": 650, "metadata_is_input_plus_updates": 550,
               "series_equals_per_slice": 150, "neutral_keeps_pixels": 100},
-    "thorough": {"construction_equals_overwrite": 10000, "contract:call_observed": 7000, "input_untouched_without_overwrite": 3000, "same_object_with_overwrite": 3000, "pixels_equal_correct_array": 6500, "metadata_is_input_plus_updates": 5500,
+    "thorough": {"input_untouched_while_result_is_modified": 2500, "construction_equals_overwrite": 10000, "contract:call_observed": 7000, "input_untouched_without_overwrite": 3000, "same_object_with_overwrite": 3000, "pixels_equal_correct_array": 6500, "metadata_is_input_plus_updates": 5500,
                  "series_equals_per_slice": 1500, "neutral_keeps_pixels": 1000},
 }
 SHARD_TIMEOUT = {"quick": 1500, "thorough": 7200}
@@ -232,6 +232,8 @@ def run_shard(spec, R):
     ALL = ["array2", "array3", "scalar", "optical", "vector", "scalar_series", "optical_series"]
     COLOUR = ["array3", "optical", "optical_series"]
 
+    rnd_counter = [0]
+
     def drive(label, corr, items, neutral=False, kmeans=False, neutral_as_float=False):
         for kind, obj in items:
             for overwrite in (False, True):
@@ -260,18 +262,45 @@ def run_shard(spec, R):
                     ref = skimage.img_as_float(obj).astype(np.float32) if neutral_as_float else obj
                     R.check(np.shape(res) == ref.shape and np.array_equal(np.asarray(res).astype(ref.dtype), ref), "neutral_keeps_pixels", {"correction": label, "input": kind, "overwrite": overwrite})
                 R.sig([label, kind, str(getattr(obj, "dtype", "")), overwrite], nontrivial=(not neutral) or "series" in kind, cls=label)
+                # the input stays untouched also while the caller keeps working with the returned image: everything
+                # mutable the result carries (lists / arrays of its metadata, a series that grows) is changed in place
+                if ok and (not overwrite) and isinstance(obj, darsia.Image) and res is not arg:
+                    in_before = snap(arg)
+                    touched = []
+                    for nm in ("dimensions", "origin", "date", "time"):
+                        val = getattr(res, nm, None)
+                        if isinstance(val, list) and val:
+                            val[0] = val[0] * 2.0 if isinstance(val[0], float) else val[0]
+                            val.append(val[-1])
+                            touched.append(nm)
+                        elif isinstance(val, np.ndarray) and val.size:
+                            val += 1.0
+                            touched.append(nm)
+                    if res.series:
+                        try:
+                            frame = res.time_slice(0)
+                            res.append(frame, offset=1.0)
+                            touched.append("append")
+                        except Exception:
+                            pass
+                    R.check(snap(arg) == in_before, "input_untouched_while_result_is_modified", lambda: {"correction": label, "input": kind, "modified_on_result": touched, "difference": diff(in_before, snap(arg))}, group=label)
+                    res = None
                 # the third way of applying a correction to an image: handing it over at construction
                 # (`transformations=[...]`); the image built that way equals the image corrected in place
                 if ok and overwrite and isinstance(obj, darsia.Image) and label != "drift_active":
                     if kmeans:
                         cv2.setRNGSeed(0)
                     n_before = R.counters["contract:call_observed"]
-                    okc, built = R.guarded(f"construct_with:{label}", lambda: type(obj)(obj.img.copy(), transformations=[corr], **copy.deepcopy(obj.metadata())), key=lambda e, w: key)
+                    # unconfigured corrections of a workflow appear as None placeholders in the list
+                    tlist = [[corr], [None, corr], [corr, None], [None, None, corr], [None, corr, None]][(rnd_counter[0]) % 5]
+                    rnd_counter[0] += 1
+                    okc, built = R.guarded(f"construct_with:{label}", lambda: type(obj)(obj.img.copy(), transformations=list(tlist), **copy.deepcopy(obj.metadata())), key=lambda e, w: key)
                     if okc:
                         same = (built.img.dtype == res.img.dtype and built.img.shape == res.img.shape and np.array_equal(built.img, res.img, equal_nan=True)
                                 and snap(built.metadata()) == snap(res.metadata()))
                         R.check(same, "construction_equals_overwrite",
                                 lambda: {"correction": label, "input": kind, "built": [str(built.img.dtype), list(built.img.shape)], "in_place": [str(res.img.dtype), list(res.img.shape)],
+                                         "transformations": ["None" if t is None else "correction" for t in tlist],
                                          "correction_called": R.counters["contract:call_observed"] > n_before}, group=label)
 
     import contextlib
